@@ -118,8 +118,8 @@ func baseFieldClasses() []fieldClass {
 	}
 }
 
-var hardChars = []string{"\n", "\r", "\x00", "\x01", "\x07", "\x08", "\x0b", "\x0c", "\x1b", "\x1f", "\x7f", "\r\n"}
-var softChars = []string{"\t", "\u0085", "\u009b", "\u200b", "\u202e", "\ufeff"}
+var hardChars = []string{"\n", "\r", "\x00", "\x01", "\x07", "\x08", "\x0b", "\x0c", "\x1b", "\x1f", "\x7f", "\r\n", "\u0085", "\u009b", "\u0080", "\u009f"}
+var softChars = []string{"\t", "\u200b", "\u202e", "\ufeff"}
 
 func randomFieldClass(rng *rand.Rand) fieldClass {
 	c := fieldClass{name: "Bob Builder", email: "bob@example.net"}
@@ -485,6 +485,9 @@ func craftDefects() []craftDefect {
 		{"name-nul", false, func(v *craftedVersion, _ map[string]uint64, _ []loadedKey) { v.Name = "Mal\x00lory" }},
 		{"name-esc", false, func(v *craftedVersion, _ map[string]uint64, _ []loadedKey) { v.Name = "\x1b[2JMallory" }},
 		{"name-del", false, func(v *craftedVersion, _ map[string]uint64, _ []loadedKey) { v.Name = "Mallory\x7f" }},
+		{"name-c1-nel", false, func(v *craftedVersion, _ map[string]uint64, _ []loadedKey) { v.Name = "Mal\u0085lory" }},
+		{"login-c1-csi", false, func(v *craftedVersion, _ map[string]uint64, _ []loadedKey) { v.Login = "mal\u009b31mlory" }},
+		{"email-c1", false, func(v *craftedVersion, _ map[string]uint64, _ []loadedKey) { v.Email = "m\u0090@example.com" }},
 		{"login-newline", false, func(v *craftedVersion, _ map[string]uint64, _ []loadedKey) { v.Login = "mal\nlory" }},
 		{"login-cr", false, func(v *craftedVersion, _ map[string]uint64, _ []loadedKey) { v.Login = "mallory\r" }},
 		{"login-only-nul", false, func(v *craftedVersion, _ map[string]uint64, _ []loadedKey) { v.Name, v.Login = "", "mal\x00" }},
